@@ -484,7 +484,7 @@ Definition defers_done (ss : sstate) : Prop :=
 
 Definition setup_ok (cfg : config) (p : script) (s : nat) (ss : sstate) : Prop :=
   setup_events (obs ss) = [] \/
-  exists t, setup_tree (is_root cfg) (effective_files cfg p) = Some t /\
+  exists t, setup_result cfg p = Some t /\
             setup_events (obs ss) = [(initial_env (hostenv cfg) s (setup_adds p), t, escapes_of cfg p)].
 
 Definition sinv (cfg : config) (p : script) (s : nat) (ss : sstate) : Prop :=
@@ -547,7 +547,7 @@ Proof.
   - (* setup *)
     destruct PH as (O & D & G & W).
     destruct (defer_regs_of_setup (setup_defers p)) as (R1 & R2 & R3 & R4 & R5).
-    destruct (setup_tree (is_root cfg) (effective_files cfg p)) as [t|] eqn:Et.
+    destruct (setup_result cfg p) as [t|] eqn:Et.
     + assert (K : forall ph0, match ph0 with Running _ | Ending _ SDefers => True | _ => False end ->
                   sinv cfg p s {| ph := ph0; cwd := []; senv := initial_env (hostenv cfg) s (setup_adds p); tr := t;
                                   wpresent := true; dstack := rev (setup_defers p); bgl := []; failedf := false;
@@ -689,7 +689,7 @@ Lemma sstep_effect cfg p s c ss c' ss' e :
   end.
 Proof.
   unfold sstep. intro H. destruct (ph ss) as [|pc|v st|v] eqn:Eph.
-  - destruct (setup_tree _ _); [destruct (setup_err p)|]; injection H as <- <- <-; left; unfold is_done; cbn; now rewrite Eph.
+  - destruct (setup_result cfg p); [destruct (setup_err p)|]; injection H as <- <- <-; left; unfold is_done; cbn; now rewrite Eph.
   - destruct (nth_error (body p) pc).
     + destruct (exec_action cfg s c ss a) as [[c1 ss1] o]. injection H as <- <- <-. left.
       unfold is_done. rewrite Eph. destruct o; [| destruct (continue_on_error cfg) | | |]; reflexivity.
@@ -1015,7 +1015,7 @@ Lemma sstep_sim cfg p s cb ca ss cb' ssb eb ca' ssa ea :
 Proof.
   intros Hk Hwf R G E Hb Ha. unfold sstep in Hb, Ha.
   destruct (ph ss) as [|pc|v st|v].
-  - destruct (setup_tree (is_root cfg) (effective_files cfg p)) as [t|].
+  - destruct (setup_result cfg p) as [t|].
     + destruct (setup_err p); injection Hb as <- <- <-; injection Ha as <- <- <-;
         (split; [reflexivity|]); (split; [exact R|]); (split; [exact G|]);
         (split; [cbn; now apply initial_env_ok | apply frame_others_refl]).
@@ -1119,7 +1119,7 @@ Lemma sstep_nocond cfg p s : script_uses_cond p = false ->
   forall c1 c2 ss, snd (fst (sstep cfg p s c1 ss)) = snd (fst (sstep cfg p s c2 ss)).
 Proof.
   intros H c1 c2 ss. unfold sstep. destruct (ph ss) as [|pc|v st|v].
-  - destruct (setup_tree _ _); [destruct (setup_err p)|]; reflexivity.
+  - destruct (setup_result cfg p); [destruct (setup_err p)|]; reflexivity.
   - destruct (nth_error (body p) pc) as [a|] eqn:Ea; [|reflexivity].
     assert (Ha : uses_cond a = false).
     { unfold script_uses_cond in H. destruct (uses_cond a) eqn:E; [|reflexivity].
@@ -1158,15 +1158,15 @@ Qed.
 Definition b_bin : name := [x62; x69; x6e].
 Definition b_tool : name := [x6d; x79; x74; x6f; x6f; x6c].
 Definition cfg_prog_key : config :=
-  {| retain := false; key_by_path := false; names_see_env := true; continue_on_error := false; has_cancel := false; is_root := true;
+  {| retain := false; key_by_path := false; names_see_env := true; names_contained := true; empty_cleans := true; continue_on_error := false; has_cancel := false; is_root := true;
      hostenv := [(PATH, [x2f; x75; x73; x72; x2f; x62; x69; x6e])]; hosttab := []; helper := [x68] |}.
 (* A: chmod 755 bin/mytool; env PATH=$WORK/bin; [exec:mytool] stop; then a failing line.
    B: [exec:mytool] then a failing line (mytool is not on the host PATH). *)
 Definition script_A : script :=
-  {| archive := [([b_bin; b_tool], [])]; work_named := []; setup_adds := []; setup_defers := []; setup_err := false;
+  {| archive := [([b_bin; b_tool], [])]; work_named := []; escaping_at := None; setup_adds := []; setup_defers := []; setup_err := false;
      body := [AChmodX [b_bin; b_tool]; ASetPathOwn [b_bin] false; AIfExec false b_tool AStop; AFail] |}.
 Definition script_B : script :=
-  {| archive := []; work_named := []; setup_adds := []; setup_defers := []; setup_err := false;
+  {| archive := []; work_named := []; escaping_at := None; setup_adds := []; setup_defers := []; setup_err := false;
      body := [AIfExec false b_tool AFail] |}.
 
 Definition verdict_of (st : bstate) (s : nat) : option phase := option_map ph (nth_error (scripts st) s).
@@ -1183,7 +1183,7 @@ Proof. vm_compute. repeat split. Qed.
 
 (* the same two scripts with the key that includes PATH: both orders agree with the solitary runs *)
 Example path_key_order_independent :
-  let cfg := {| retain := false; key_by_path := true; names_see_env := true; continue_on_error := false; has_cancel := false; is_root := true;
+  let cfg := {| retain := false; key_by_path := true; names_see_env := true; names_contained := true; empty_cleans := true; continue_on_error := false; has_cancel := false; is_root := true;
                 hostenv := hostenv cfg_prog_key; hosttab := []; helper := [x68] |} in
   let progs := [script_A; script_B] in
   let a_first := repeat 0 12 ++ repeat 1 12 in
@@ -1212,7 +1212,7 @@ Lemma sstep_mu cfg p s c ss c' ss' e :
   sstep cfg p s c ss = (c', ss', e) -> mu p ss' <= pred (mu p ss).
 Proof.
   unfold sstep, mu. intro H. destruct (ph ss) as [|pc|v st|v] eqn:Eph.
-  - destruct (setup_tree _ _); [destruct (setup_err p)|]; injection H as <- <- <-; cbn [ph set_ph]; lia.
+  - destruct (setup_result cfg p); [destruct (setup_err p)|]; injection H as <- <- <-; cbn [ph set_ph]; lia.
   - destruct (nth_error (body p) pc) as [a|] eqn:Ea.
     + destruct (exec_action cfg s c ss a) as [[c1 ss1] o]. injection H as <- <- <-. cbn [ph set_ph].
       assert (pc < length (body p)) by (apply nth_error_Some; congruence).
@@ -1274,7 +1274,7 @@ Proof. intro H. unfold setup_events. apply in_flat_map. exists (EvSetup e t o). 
 Lemma setup_event_is_initial cfg progs sched s p ss e t o :
   nth_error progs s = Some p -> nth_error (scripts (run cfg progs (init progs) sched)) s = Some ss ->
   In (EvSetup e t o) (obs ss) ->
-  e = initial_env (hostenv cfg) s (setup_adds p) /\ setup_tree (is_root cfg) (effective_files cfg p) = Some t
+  e = initial_env (hostenv cfg) s (setup_adds p) /\ setup_result cfg p = Some t
   /\ o = escapes_of cfg p.
 Proof.
   intros Hp Hs Hin. destruct (reachable_sinv _ _ _ _ _ _ Hp Hs) as (_ & SU & _).
@@ -1294,18 +1294,40 @@ Proof.
   split; [reflexivity|]. split; [apply initial_env_names|]. intros h' H. now apply initial_env_indep.
 Qed.
 
-(* the statement tied to the generated constant: it goes through only if setup() makes the
-   initial variables visible before it expands the entry names *)
+(* the statement tied to the generated constants: it goes through only if setup() makes the
+   initial variables visible before it expands the entry names, and refuses names that leave the
+   work directory *)
+Lemma setup_result_corrected cfg p t :
+  names_see_env cfg = true -> names_contained cfg = true -> setup_result cfg p = Some t ->
+  esc_index p = None /\ setup_tree (is_root cfg) (archive p) = Some t /\ escapes_of cfg p = [].
+Proof.
+  intros Hn Hc. unfold setup_result, setup_rejected, escapes_of, effective_files, esc_paths, kept. rewrite Hn, Hc.
+  destruct (esc_index p); cbn; [discriminate|]. intro H. auto.
+Qed.
+
 Lemma workdir_exact cfg progs sched s p ss e t o :
-  names_see_env cfg = entry_names_see_env ->
+  names_see_env cfg = entry_names_see_env -> names_contained cfg = entry_names_contained ->
   nth_error progs s = Some p -> nth_error (scripts (run cfg progs (init progs) sched)) s = Some ss ->
   In (EvSetup e t o) (obs ss) ->
-  o = [] /\ forall q, tree_get t q = expected_node (archive p) q.
+  o = [] /\ esc_index p = None /\ forall q, tree_get t q = expected_node (archive p) q.
 Proof.
-  intros Hn Hp Hs Hin. destruct (setup_event_is_initial _ _ _ _ _ _ _ _ _ Hp Hs Hin) as (_ & Ht & ->).
+  intros Hn Hc Hp Hs Hin. destruct (setup_event_is_initial _ _ _ _ _ _ _ _ _ Hp Hs Hin) as (_ & Ht & ->).
   assert (Hn' : names_see_env cfg = true) by (rewrite Hn; reflexivity).
-  unfold escapes_of, effective_files in *. rewrite Hn' in *. split; [reflexivity|].
-  eapply setup_tree_exact; eauto.
+  assert (Hc' : names_contained cfg = true) by (rewrite Hc; reflexivity).
+  destruct (setup_result_corrected cfg p t Hn' Hc' Ht) as (E1 & E2 & E3).
+  split; [exact E3|]. split; [exact E1|]. eapply setup_tree_exact; eauto.
+Qed.
+
+(* a script with an escaping entry name never gets past setup: it fails, with nothing written outside *)
+Lemma escaping_name_fails_setup cfg p s c :
+  names_contained cfg = entry_names_contained -> esc_index p <> None ->
+  exists t, snd (fst (sstep cfg p s c sstate0))
+            = {| ph := Ending VSetupFail SDefers; cwd := []; senv := []; tr := t; wpresent := true;
+                 dstack := []; bgl := []; failedf := false; obs := [] |}.
+Proof.
+  intros Hc He. assert (Hc' : names_contained cfg = true) by (rewrite Hc; reflexivity).
+  unfold sstep, setup_result, setup_rejected. cbn [ph sstate0]. rewrite Hc'.
+  destruct (esc_index p); [|contradiction]. cbn. eexists. reflexivity.
 Qed.
 
 (* with the entry names expanded before the environment exists (the code before the repair) a
@@ -1316,12 +1338,57 @@ Lemma unexpanded_names_refuted :
     snd (fst (sstep cfg p 0 [] sstate0)) = ss /\ In (EvSetup e t o) (obs ss) /\
     o <> [] /\ exists q, tree_get t q <> expected_node (archive p) q.
 Proof.
-  exists {| retain := false; key_by_path := true; names_see_env := false; continue_on_error := false; has_cancel := false; is_root := true;
+  exists {| retain := false; key_by_path := true; names_see_env := false; names_contained := true; empty_cleans := true; continue_on_error := false; has_cancel := false; is_root := true;
             hostenv := []; hosttab := []; helper := [] |},
-         {| archive := [([[x66]], [x31])]; work_named := [[[x66]]]; setup_adds := []; setup_defers := [];
+         {| archive := [([[x66]], [x31])]; work_named := [[[x66]]]; escaping_at := None; setup_adds := []; setup_defers := [];
             setup_err := false; body := [] |}.
   do 4 eexists. split; [reflexivity|]. split; [reflexivity|]. split; [cbn; left; reflexivity|].
   split; [discriminate|]. exists [[x66]]. vm_compute. discriminate.
+Qed.
+
+(* with escaping names written where they say (the code before the repair) the archive of one
+   script puts a file outside its work directory *)
+Lemma uncontained_names_refuted :
+  exists cfg p ss e t o,
+    names_contained cfg = false /\ names_see_env cfg = true /\
+    snd (fst (sstep cfg p 0 [] sstate0)) = ss /\ In (EvSetup e t o) (obs ss) /\ o <> [].
+Proof.
+  exists {| retain := false; key_by_path := true; names_see_env := true; names_contained := false; empty_cleans := true;
+            continue_on_error := false; has_cancel := false; is_root := true; hostenv := []; hosttab := []; helper := [] |},
+         {| archive := [([[x66]], [x31]); ([[x2e; x2e]; [x78]], [x32])]; work_named := []; escaping_at := Some 1;
+            setup_adds := []; setup_defers := []; setup_err := false; body := [] |}.
+  do 4 eexists. split; [reflexivity|]. split; [reflexivity|]. split; [reflexivity|]. split; [cbn; left; reflexivity|].
+  discriminate.
+Qed.
+
+(* RunT without any script: the root is removed at once (unless retention was asked for) *)
+Lemma empty_batch_leaves_nothing cfg :
+  empty_cleans cfg = empty_batch_removes_root -> retain cfg = false ->
+  root_present (sh (start cfg [])) = false /\ root_removals (sh (start cfg [])) = 1
+  /\ cancelled (sh (start cfg [])) = has_cancel cfg.
+Proof.
+  intros He Hr. assert (He' : empty_cleans cfg = true) by (rewrite He; reflexivity).
+  unfold start. rewrite He', Hr. cbn. auto.
+Qed.
+
+Lemma start_nonempty cfg progs : progs <> [] -> start cfg progs = init progs.
+Proof. destruct progs; [contradiction | reflexivity]. Qed.
+
+Lemma empty_batch_refuted :
+  exists cfg, empty_cleans cfg = false /\ retain cfg = false /\ root_present (sh (start cfg [])) = true.
+Proof.
+  exists {| retain := false; key_by_path := true; names_see_env := true; names_contained := true; empty_cleans := false;
+            continue_on_error := false; has_cancel := false; is_root := true; hostenv := []; hosttab := []; helper := [] |}.
+  repeat split.
+Qed.
+
+Lemma unpack_partial_of_success root files : forall t0 t,
+  unpack root t0 files = Some t -> unpack_partial root t0 files = t.
+Proof.
+  induction files as [|[q d] r IH]; intros t0 t H; cbn [unpack unpack_partial] in *.
+  - now injection H.
+  - destruct (mkdir_all root t0 (removelast q)) as [t1|]; [|discriminate].
+    destruct (write_file root t1 q d) as [t2|]; [|discriminate]. now apply IH.
 Qed.
 
 Lemma defers_lifo_all_paths cfg progs sched s p ss v :
@@ -1409,17 +1476,17 @@ Qed.
 (* ------------------------------------------------------------------ examples: every exit path occurs *)
 
 Definition ex_cfg : config :=
-  {| retain := false; key_by_path := true; names_see_env := true; continue_on_error := false; has_cancel := true; is_root := false;
+  {| retain := false; key_by_path := true; names_see_env := true; names_contained := true; empty_cleans := true; continue_on_error := false; has_cancel := true; is_root := false;
      hostenv := [(PATH, [x2f; x62]); ([x47; x4f; x52; x41; x43; x45], [x78]); ([x43; x41; x4e; x41; x52; x59], [x31])];
      hosttab := [(([x2f; x62], [x68]), true)]; helper := [x68] |}.
 Definition ex_script (b : list action) : script :=
-  {| archive := [([[x61]], [x31]); ([[x77]], [x32])]; work_named := [[[x77]]]; setup_adds := [([x58], VWork 0 [[x67]])]; setup_defers := [(7, false)]; setup_err := false; body := b |}.
+  {| archive := [([[x61]], [x31]); ([[x77]], [x32])]; work_named := [[[x77]]]; escaping_at := None; setup_adds := [([x58], VWork 0 [[x67]])]; setup_defers := [(7, false)]; setup_err := false; body := b |}.
 Definition ex_progs : list script :=
   [ ex_script [ADefer 1 false; ABg 1 false; ADefer 2 false; AProbe];
     ex_script [ADefer 1 false; ABg 1 false; AFail; ADefer 2 false];
     ex_script [ADefer 1 false; ABg 1 true; ASkip];
     ex_script [ABg 1 false; ADefer 1 false; AStop; AFail];
-    {| archive := [([[x61]], [x31]); ([[x61]; [x62]], [x32])]; work_named := []; setup_adds := []; setup_defers := []; setup_err := false; body := [] |};
+    {| archive := [([[x61]], [x31]); ([[x61]; [x62]], [x32])]; work_named := []; escaping_at := None; setup_adds := []; setup_defers := []; setup_err := false; body := [] |};
     ex_script [ADefer 1 true; ADefer 2 false; ABg 3 false];
     ex_script [AMkdir [[x64]] true; AWrite [[x64]; [x66]] [x31]] ].
 
@@ -1430,6 +1497,20 @@ Example every_exit_path_occurs :
   /\ map (fun ss => (bg_started (obs ss), bg_interrupted (obs ss), bg_waited (obs ss))) (scripts st)
      = [([1], [1], [1]); ([1], [1], [1]); ([1], [1], [1]); ([1], [1], [1]); ([], [], []); ([3], [3], [3]); ([], [], [])]
   /\ root_present (sh st) = false /\ root_removals (sh st) = 1 /\ cancelled (sh st) = true.
+Proof. vm_compute. repeat split. Qed.
+
+Example continue_on_error_example :
+  (* ContinueOnError: a failing line, then more lines, then skip: the run fails; kill + wait with a
+     negated background line is accepted *)
+  let cfg := {| retain := false; key_by_path := true; names_see_env := true; names_contained := true; empty_cleans := true;
+                continue_on_error := true; has_cancel := false; is_root := true; hostenv := hostenv ex_cfg;
+                hosttab := hosttab ex_cfg; helper := [x68] |} in
+  let progs := [ex_script [AFail; ADefer 1 false; AProbe; ASkip]; ex_script [ABg 1 true; AKillWait; AProbe];
+                ex_script [ABg 1 false; AKill; AFail; AStop]] in
+  let st := run cfg progs (init progs) (round_robin 3 14) in
+  map ph (scripts st) = [Done VFail; Done VPass; Done VFail]
+  /\ map (fun ss => length (filter (fun e => match e with EvProbe _ _ _ => true | _ => false end) (obs ss))) (scripts st) = [1; 1; 0]
+  /\ map (fun ss => defer_runs (obs ss)) (scripts st) = [[1; 7]; [7]; [7]].
 Proof. vm_compute. repeat split. Qed.
 
 Example wf_example : forall s p, nth_error [ex_script [AProbe]] s = Some p -> wf_script s p.
